@@ -201,6 +201,9 @@ pub enum Op {
     UseOriginal,
     /// `Kind::NestedValues`: one element is pulled directly from the base iterator
     BasePull,
+    /// `iter.ids_and_values().nth(k)`, k >= 1: k elements are consumed unseen, the (k+1)-th is
+    /// returned with its index (C02 only: the other oracles cannot account for the unseen ones)
+    IdsValuesNth(usize),
 }
 
 #[derive(Clone, Copy, Debug, PartialEq, Eq, Serialize, Deserialize)]
@@ -867,6 +870,17 @@ where
                         break;
                     }
                 }
+            }
+            Op::IdsValuesNth(k) => {
+                call(ctx, tid, CallKind::IdsValuesNext, k, || {
+                    match it.ids_and_values().nth(k) {
+                        Some((i, x)) => Res::Item {
+                            idx: Some(i),
+                            obs: x.obs(),
+                        },
+                        None => Res::End,
+                    }
+                });
             }
             Op::ForEach(n) => {
                 let seen = Mutex::new(Vec::new());
